@@ -232,11 +232,16 @@ type BoolArg struct {
 }
 
 func (a *BoolArg) Parse() error {
-	b, e := strconv.ParseBool(string(a.arg))
-	if e != nil {
-		return e
+	// RFC 6020 section 12: boolean arguments are exactly "true" or "false"
+	// (strconv.ParseBool also accepts 1, t, T, TRUE, True, 0, f, ...).
+	switch string(a.arg) {
+	case "true":
+		a.b = true
+	case "false":
+		a.b = false
+	default:
+		return errors.New("invalid boolean argument: " + string(a.arg))
 	}
-	a.b = b
 	return nil
 }
 
